@@ -107,4 +107,23 @@ def holdsOn (c : Cell) (o : Obs) : Verdict :=
         | some why => .fails why
         | none => .holds
 
+/-- the demand a session completed by ONE exporter violates, judged from that exporter's own cell -/
+def exporterDefect (c : Cell) (o : Obs) : Option String := if o.initOk then sessionDefect c o else none
+
+/-- C18 on two exporters created one after the other in one process towards the same collector
+    (`Ipfix.TLS.Resume`): EVERY session has to be authenticated on its own - against the CA and the name the
+    exporter that completes it is configured with. What an earlier exporter of the process was configured with,
+    and whether it got through, gives the later one no licence: the verdict on B never looks at A's
+    configuration or observation. Safety only, as `holdsOn`. -/
+def holdsOnResume (r : Resume) (a b : Obs) : Verdict :=
+  if !r.valid then .na
+  else if (!a.initOk && a.delivered) || (!b.initOk && b.delivered) then .fails "malformed-observation"
+  else
+    match exporterDefect (r.cell r.first) a with
+    | some why => .fails ("first-session-" ++ why)
+    | none =>
+      match exporterDefect (r.cell r.second) b with
+      | some why => .fails ("second-session-" ++ why)
+      | none => .holds
+
 end Ipfix.C18
